@@ -2,6 +2,7 @@ package main
 
 import (
 	"fmt"
+	ecdsakeygen "github.com/bnb-chain/tss-lib/v2/ecdsa/keygen"
 	"math/big"
 	"math/rand"
 	"sort"
@@ -285,7 +286,7 @@ func exhaustive(r *Run, pr protoRun, cap int) int {
 }
 
 func runC08(r *Run, rng *rand.Rand, thorough bool) {
-	r.Rule = "routing and channel discipline on every message of every run: each type is emitted with the routing the protocol table prescribes (secret-bearing types to exactly one recipient and not broadcast, all others broadcast to the right committee), survives WireBytes/ParseWireMessage unchanged, does not contain the sender's long-term secrets; copies with the broadcast flag flipped are injected before / instead of / after the genuine message and must never advance a round; WaitingFor is compared with the exact awaited set of the Lean engine after every delivery; non-trivial = one engine trace"
+	r.Rule = "routing and channel discipline on every message of every run: each type is emitted with the routing the protocol table prescribes (secret-bearing types to exactly one recipient and not broadcast, all others broadcast to the right committee), survives WireBytes/ParseWireMessage unchanged, does not contain the sender's long-term secrets; copies with the broadcast flag flipped are injected before / instead of / after the genuine message and must never advance a round; WaitingFor is compared with the exact awaited set of the Lean engine (Engine for the four all-to-all protocols, Engine2 for the two resharing protocols) after every delivery; non-trivial = one engine trace"
 	runs := allToAllRuns(r, rng, thorough)
 	for pi, pr := range runs {
 		nNodes := len(pr.build(rng).Nodes)
@@ -308,6 +309,46 @@ func runC08(r *Run, rng *rand.Rand, thorough bool) {
 			checkRouting(r, pr.name, net)
 		}
 	}
+	// the two resharing protocols: wrong-channel copies before / instead of / after every delivery
+	eks := fixtureEcKeys()
+	edKs, edErr := genEdKeys(rng, 3, 1, 0, Strategy{Name: "fifo", Pick: pickFIFO})
+	for mode := 0; mode < 3; mode++ {
+		for _, proto := range []string{"eddsa-resharing", "ecdsa-resharing"} {
+			if !thorough && proto == "ecdsa-resharing" && mode != 0 && mode != 1+int(r.Seed)%2 {
+				continue
+			}
+			var net *Net
+			nOld := 0
+			if proto == "ecdsa-resharing" {
+				keys := make([]ecdsakeygen.LocalPartySaveData, 3)
+				for i := range keys {
+					keys[i] = eks.keys[i]
+					keys[i].Xi = new(big.Int).Set(eks.keys[i].Xi)
+				}
+				nOld = 3
+				net = ecdsaResharingNet(rng, keys, eks.pids[:3], eks.t, makePIDs([]*big.Int{big.NewInt(8001), big.NewInt(8002), big.NewInt(8003)}, "N"), 1, false, 1)
+			} else {
+				if edErr != nil {
+					continue
+				}
+				nOld = 2
+				net = eddsaResharingNet(rng, cloneEdKeys(edKs.keys[:2]), edKs.pids[:2], 1, makePIDs([]*big.Int{big.NewInt(8001), big.NewInt(8002), big.NewInt(8003)}, "N"), 1)
+			}
+			waits := map[int][]string{}
+			net.OnEvent = recordWaiting(nOld, waits, nil)
+			sts := strategies(len(net.Nodes), rng)
+			st := sts[(mode*2+int(r.Seed))%4] // fifo, lifo, random, future-first
+			runWithFlips(r, net, rand.New(rand.NewSource(int64(mode)+r.Seed)), st, mode, proto)
+			r.Evals++
+			ends := 0
+			for _, nd := range net.Nodes {
+				ends += len(nd.Ends)
+			}
+			r.Assert(ends == len(net.Nodes) && len(net.Panics) == 0, proto+"/flip-run-completes", "run-with-flag-flipped-copies-still-finishes-once", func() string { return fmt.Sprint(st.Name, mode, net.Panics) })
+			engine2Check(r, proto, net, nOld, waits)
+			checkRoutingOpt(r, proto, net, false)
+		}
+	}
 }
 
 // the secret-bearing message types (key shares, MtA ciphertexts and responses, factorisation proofs), per protocol family
@@ -318,7 +359,9 @@ var secretBearingTypes = map[string]bool{
 }
 
 // checkRouting asserts the per-type channel discipline and the wire round-trip on every emitted message
-func checkRouting(r *Run, proto string, net *Net) {
+func checkRouting(r *Run, proto string, net *Net) { checkRoutingOpt(r, proto, net, true) }
+
+func checkRoutingOpt(r *Run, proto string, net *Net, once bool) {
 	for _, nd := range net.Nodes {
 		perType := map[string]int{}
 		for _, m := range nd.Emitted {
@@ -343,8 +386,11 @@ func checkRouting(r *Run, proto string, net *Net) {
 			}
 			r.Assert(ok, proto+"/wire/"+t, "message-survives-wire-encoding", func() string { return t })
 		}
-		// once each: p2p types n-1 times, broadcast types once
+		// once each: p2p types n-1 times, broadcast types once (two committees: the engine trace covers the counts)
 		for t, c := range perType {
+			if !once {
+				break
+			}
 			want := 1
 			if secretBearingTypes[proto+"/"+t] {
 				want = len(net.Nodes) - 1
@@ -373,12 +419,15 @@ func runWithFlips(r *Run, n *Net, rng *rand.Rand, st Strategy, mode int, proto s
 		d := n.Pending[k]
 		inject := func() {
 			before := roundOf(n.Nodes[d.To].Party)
+			// a round that awaits nobody (an old member's round 1 in resharing) is left at the next update call whatever
+			// that call carries: not an advance caused by the copy
+			idle := len(waitingIdx(n.Nodes[d.To].Party)) == 0
 			endsBefore := len(n.Nodes[d.To].Ends)
 			fd := &Delivery{Seq: d.Seq, From: d.From, To: d.To, Msg: d.Msg, Wire: d.Wire, Bcast: !d.Bcast}
 			n.Pending = append(n.Pending, fd)
 			n.Deliver(len(n.Pending)-1, false)
 			after := roundOf(n.Nodes[d.To].Party)
-			r.Assert(before == after && len(n.Nodes[d.To].Ends) == endsBefore, proto+"/flag-flip", "wrong-channel-copy-never-advances-a-round", func() string {
+			r.Assert((before == after || idle) && len(n.Nodes[d.To].Ends) == endsBefore, proto+"/flag-flip", "wrong-channel-copy-never-advances-a-round", func() string {
 				return fmt.Sprintf("%s <- %s %s flipped to bcast=%v: %s -> %s", n.Nodes[d.To].Name, n.Nodes[d.From].Name, shortType(d.Msg.Type()), !d.Bcast, before, after)
 			})
 		}
